@@ -182,12 +182,23 @@ UNITS["group"] = {
              "fns": ["get_or_create_keyspace", "load_states_from_storage", "load_states", "add_state"]},
         ],
         "append": ['#[cfg(kani)] #[path = "/verif/harness/group/src/contracts.rs"] mod verif_contracts;'],
+    }, {
+        "mode": "items", "src": "datacake-eventual-consistency/src/keyspace/group.rs", "out": "group_caller.rs",
+        "prelude": "/verif/harness/group/src/prelude_caller.rs",
+        "deasync": True,
+        "items": [
+            {"kind": "type", "name": "KeyspaceMap"},
+            {"kind": "struct", "name": "KeyspaceGroup"},
+            {"kind": "impl_fns", "name": "KeyspaceGroup", "header": r"impl<S> KeyspaceGroup<S>\s+where\s+S: Storage,\s*\{\s*/// Creates a new",
+             "fns": ["load_states_from_storage"]},
+        ],
+        "append": ['#[cfg(kani)] #[path = "/verif/harness/group/src/c07_caller.rs"] mod verif_contracts;'],
     }],
     "extraction": "items `type KeyspaceMap`, `struct KeyspaceGroup` and the fns get_or_create_keyspace, load_states_from_storage, load_states, add_state of "
                   "`impl<S> KeyspaceGroup<S>` cut verbatim and pasted after harness/group/src/prelude.rs; the `async` keyword and every `.await` token are deleted",
     "functions": ["KeyspaceGroup::load_states_from_storage", "KeyspaceGroup::load_states", "KeyspaceGroup::get_or_create_keyspace", "KeyspaceGroup::add_state"],
     "assumptions": [
-        "the ORSWOT set is linked by contract (contracts/specset.rs); storage is a ghost row store (<= 2 keyspaces x <= 2 rows, one row per id, distinct stamps)",
+        "the ORSWOT set is a RECORDING stand-in (contracts/recset.rs): the contract is which operations reach the set; what they do to a real set is os_insert/delete_contract + lemmas_restart; storage is a ghost row store (<= 2 keyspaces x <= 2 rows, one row per id)",
         "spawn_keyspace is a stand-in that records the state it is handed; ActorMailbox is an identity; Clock returns any stamp",
         "C18: parking_lot RwLock sections are atomic and no guard is held across an await (checked by reading: guards live in inner blocks); other tasks run only at "
         "the former await points (clock read, actor spawn) and only ever add a binding for an unbound name (rely == the guarantee proved)",
@@ -254,6 +265,11 @@ UNITS["clock"] = {
 }
 
 import copy
+UNITS["group_caller"] = copy.deepcopy(UNITS["group"])
+UNITS["group_caller"]["harness_mod"] = "group_caller::verif_contracts"
+UNITS["group_caller"]["gen_unit"] = "group"
+UNITS["group_caller"]["functions"] = ["KeyspaceGroup::load_states_from_storage"]
+
 UNITS["orswot_b"] = copy.deepcopy(UNITS["orswot"])
 UNITS["orswot_b"].update({
     "crate": "harness/orswot_b",
@@ -388,10 +404,12 @@ _k("ac_on_purge", "actor", "B", "KeyspaceActor::on_purge_tombstones",
    bound="|dead| <= 2", tier="thorough")
 
 # ---- unit group
-_k("gr_load_all", "group", "B", "KeyspaceGroup::load_states_from_storage / load_states",
-   "for every storage content (<= 2 keyspaces x <= 2 rows, any order, any tombstone flags) the state handed to each keyspace actor holds exactly the rows: "
-   "live ids and tombstones with their stamps, nothing else; name bound to that actor; a failed read starts nothing",
-   bound="2 keyspaces x 2 rows")
+_GL = ("every stored row is replayed exactly once, in timestamp order, through source 0 into the set handed (via load_states) to that keyspace, and nothing else is "
+       "(any order, any tombstone flags, stamps may coincide); a failed read hands over nothing")
+_k("gr_load_rows", "group_caller", "B", "KeyspaceGroup::load_states_from_storage (callee load_states by contract)", "1 keyspace x <= 2 rows: " + _GL, bound="1 keyspace x 2 rows")
+_k("gr_load_keyspaces", "group_caller", "B", "KeyspaceGroup::load_states_from_storage (callee load_states by contract)", "<= 2 keyspaces x <= 1 row: " + _GL, bound="2 keyspaces x 1 row")
+_k("gr_load_states", "group", "B", "KeyspaceGroup::load_states",
+   "<= 2 (name, state) pairs: exactly one actor spawned per pair with exactly that state; name bound to that actor's mailbox and to a change counter", bound="<= 2 states")
 _k("gr_binding_preserved", "group", "P", "KeyspaceGroup::get_or_create_keyspace / add_state",
    "arbitrary group map, environment steps at both former await points: result == map'[name]; a binding once set (before the call or by another task in the window) is never replaced")
 
@@ -408,6 +426,10 @@ _k("ck_two_events", "clock", "P", "run_clock",
 _k("ck_get_time", "clock", "P", "Clock::get_time", "sends exactly one Get event and returns the reply delivered on its own oneshot")
 _k("ck_register", "clock", "P", "Clock::register_ts", "own stamps ignored; otherwise exactly one Register event carrying the stamp")
 
+_k("os_merge_kernel", "orswot_b", "B", "OrSWotSet::merge / NodeVersions::merge",
+   "S and O concrete with at most one key each (live or tombstone, same or different key, symbolic stamps, one origin each): slot'(k) == k_merge(slot_S, slot_O, "
+   "before-flags); live/dead disjoint", bound="<= 1 key per side", tier="thorough")
+
 # ---- Verus lemma layer (each file = shared exec kernels proved equal to spec kernels + lemmas)
 _v("lemmas_lww", "lemmas/lww.rs", "kernels k_insert/k_delete/k_cut/k_before/k_will_apply/k_lacks/k_max_stamp/k_safe; lemma layer",
    "exec kernel == spec kernel for all 8 kernels; lemma_fold_lww: any arrival order of accepted ops with distinct stamps ends at "
@@ -423,6 +445,10 @@ _v("lemmas_purge", "lemmas/purge.rs", "lemma layer over sk_before / sk_will_appl
 _v("lemmas_membership", "lemmas/membership.rs", "lemma layer over membership maps (id -> address)",
    "apply(a, delta(a,b)) == b for ANY a, b; a consumer applying every event holds the last snapshot (induction over the history); holds for any subsequence "
    "of snapshots provided deltas are computed per subscriber", 14)
+
+_v("lemmas_restart", "lemmas/restart.rs", "lemma layer over sk_insert / sk_delete / sk_safe / sk_before",
+   "through source 0 alone no stamp is ever before the cut-off (so the restart replay never has a row refused); replaying rows with pairwise distinct ids "
+   "into a fresh set leaves exactly the rows (id -> stamp, kind) and nothing else, for any number of rows in any order", 18)
 
 # --------------------------------------------------------------------------- properties
 PROPERTIES = {
@@ -455,7 +481,7 @@ PROPERTIES = {
         "level": "proof", "explanation": "", "assumptions": [],
     },
     "C07": {
-        "obligations": ["gr_load_all", "os_insert_contract", "os_delete_contract", "ac_on_set", "ac_on_del"],
+        "obligations": ["gr_load_rows", "gr_load_keyspaces", "gr_load_states", "lemmas_restart", "os_insert_contract", "os_delete_contract", "ac_on_set", "ac_on_del"],
         "level": "proof", "explanation": "", "assumptions": [
             "'converges with its peers as in C01' is not decided (C01 is not applicable)",
             "crash points: the rebuilt state is a function of storage only (gr_load_all), so the in-memory state at the crash is irrelevant; "
